@@ -6,7 +6,7 @@ import json,sys
 raw=sys.stdin.read()
 try: d=json.loads(raw)
 except Exception: print(raw[-3000:]); sys.exit()
-print(d['key'],d['status'],d['error'][-2500:])
+print(d['key'],d['status'],d['error'][-700:])
 for o in d['obligations']:
     if o['status']!='discharged': print('  ',o['status'],o['name'].split('/',1)[1],'|',o['reason'],o.get('time_s'), str(o.get('model',''))[:400])
 print('  n=',len(d['obligations']),'bad covers',[c for c in d['covers'] if c['result']!='sat'],'wall',d.get('wall_s'), 'slowest', sorted([(o['time_s'],o['name'].split('/',1)[1]) for o in d['obligations']])[-2:])
